@@ -1,6 +1,8 @@
 """C36 — erasure coding recovers from any k blocks (codec.py and the callers' padding arithmetic)."""
 import hashlib
 import itertools
+import os
+import random
 
 import common
 
@@ -526,8 +528,48 @@ def exhaustive_small(ctx, b, maxn, all_orders_upto):
     ctx.count("exhaustive-subsets-N<=%d" % maxn)
 
 
+def mechanism_corpus(ctx, b):
+    """One minimal, fully literal case per known way of breaking C36 (the seeded changes C36-a/b/c; no defect
+    has been repaired in /repo for C36).  Independent of VERIF_SEED; each case is judged by the monitor."""
+    a, bb, c = b"\x11\x12", b"\x21\x22", b"\x31\x32"
+    # C36-a  decoder returns the blocks in the order handed over when all ids are primary:
+    #        exactly the primary blocks, NOT in ascending share-number order (codec level, immutable 3-of-3, mutable)
+    do_codec(ctx, b, 3, 5, 2, [2, 0, 1], pieces=[a, bb, c], d=6)
+    do_codec(ctx, b, 3, 5, 2, [2, 1, 0], pieces=[a, bb, c], d=5)
+    do_codec(ctx, b, 2, 2, 1, [1, 0], pieces=[b"\x07", b"\x09"], d=2)
+    do_imm(ctx, b, 5, 3, 3, 6, 0, b"\x01\x02\x03\x04\x05", [2, 0, 1])            # single padded tail segment, k = N
+    do_imm(ctx, b, 11, 3, 10, 6, 0, b"\x01\x02\x03\x04\x05\x06", [1, 2, 0])      # full segment, primaries scrambled
+    do_mut(ctx, b, False, 5, 5, 3, 5, 0, b"\x01\x02\x03\x04\x05", [1, 0, 2])
+    # C36-b  tail decoder memoised without N: same (padded tail size, k), first a small N, then a larger N read
+    #        from shares numbered >= the small N (several follow-ups: the stale decoder reads outside its matrix)
+    tail = b"\xa1\xa2\xa3\xa4\xa5"
+    do_imm(ctx, b, 5, 2, 3, 8, 0, tail, [2, 0])                                     # 2-of-3, padded tail 6
+    do_imm(ctx, b, 5, 2, 10, 8, 0, tail, [9, 7])                                    # 2-of-10, same padded tail, ids >= 3
+    do_imm(ctx, b, 5, 2, 10, 8, 0, tail, [4, 1])
+    do_imm(ctx, b, 5, 2, 6, 8, 0, tail, [5, 3])
+    do_imm(ctx, b, 13, 2, 10, 8, 1, tail, [8, 6])                                   # as the last of two segments
+    # C36-c  ids and blocks trimmed/ordered independently in Retrieve._decode_blocks:
+    #        surplus blocks, and exactly k blocks in non-ascending arrival order (SDMF and MDMF, full and tail)
+    do_mut(ctx, b, False, 5, 5, 3, 5, 0, b"\x01\x02\x03\x04\x05", [4, 2, 0, 1])
+    do_mut(ctx, b, False, 5, 5, 3, 5, 0, b"\x01\x02\x03\x04\x05", [3, 4, 1])
+    do_mut(ctx, b, False, 6, 6, 2, 4, 0, b"\x01\x02\x03\x04\x05\x06", [3, 0, 2, 1])
+    do_mut(ctx, b, True, 4, 10, 2, 4, 0, b"\x0a\x0b\x0c\x0d", [3, 1, 0])               # MDMF full segment
+    do_mut(ctx, b, True, 4, 10, 2, 4, 2, b"\x0e\x0f", [2, 3, 0, 1])                      # MDMF tail segment (2 of 4 bytes)
+
+
 def corpus(ctx, b):
-    """Fixed cases: the three parameter sets of test_codec, boundary sizes, n = 256."""
+    """Fixed cases (independent of VERIF_SEED): one per known mechanism, then the three parameter sets of
+    test_codec, boundary sizes, n = 256."""
+    saved = ctx.rng
+    ctx.rng = random.Random("C36-fixed-corpus")
+    try:
+        mechanism_corpus(ctx, b)
+        _corpus_general(ctx, b)
+    finally:
+        ctx.rng = saved
+
+
+def _corpus_general(ctx, b):
     rng = ctx.rng
     for (k, n) in [(3, 10), (25, 100), (100, 100), (1, 1), (1, 256), (256, 256), (128, 256), (255, 256), (2, 3)]:
         for L in ([0, 1, 2] if n <= 10 else [1]):
@@ -574,7 +616,10 @@ def run(ctx):
     # 0. fixed corpus
     b = Batch(ctx)
     corpus(ctx, b)
-    b.flush("corpus (test_codec parameter sets, boundary sizes, n=256)")
+    b.flush("fixed corpus (one case per known mechanism; test_codec parameter sets, boundary sizes, n=256)")
+    if os.environ.get("VERIF_CORPUS_ONLY"):
+        ctx.note("VERIF_CORPUS_ONLY: random families skipped")
+        return
 
     # 1. arithmetic and set_params
     b = Batch(ctx)
